@@ -197,7 +197,9 @@ func (w *world) await(c *sess.Conn, line *sess.Line, sig string) (sess.Outcome, 
 	if known != "" {
 		first = 400 * time.Millisecond // the verdict for this signature exists already; do not spend the time again
 	}
+	sess.StartHeartbeat()
 	cpu0 := sess.CPUTicks(pid)
+	winStart := time.Now()
 	o := c.Do(line, first)
 	idleFor := time.Duration(0)
 	for o.TimedOut {
@@ -210,14 +212,24 @@ func (w *world) await(c *sess.Conn, line *sess.Line, sig string) (sess.Outcome, 
 			return o, known, waited
 		}
 		busy := cpu1-cpu0 > int64(first/time.Second)*5+5 // more than ~5% of a core during the window
-		if busy {
+		if busy || sess.MaxStallSince(winStart) > 500*time.Millisecond || sess.Runnable(pid) {
+			// computing - or the machine keeps this process or the server from running: that window says nothing
 			idleFor = 0
 		} else {
 			idleFor += first
 		}
 		if idleFor >= 2*idleWindow {
+			// "waits for input" only if the server answers somebody else promptly right now
+			if wc := w.conns["w"]; wc != nil && !wc.Dead() {
+				p0 := time.Now()
+				if po := wc.Cmd("NOOP", watch); po.Status != "OK" || time.Since(p0) > 2*time.Second {
+					idleFor = 0
+					goto again
+				}
+			}
 			return o, "silent", waited
 		}
+	again:
 		if waited >= busyMax {
 			if busy {
 				return o, "hang", waited
@@ -226,6 +238,7 @@ func (w *world) await(c *sess.Conn, line *sess.Line, sig string) (sess.Outcome, 
 		}
 		cpu0 = cpu1
 		first = idleWindow
+		winStart = time.Now()
 		o2 := c.Await(first)
 		o2.Untagged = append(o.Untagged, o2.Untagged...)
 		o2.Bye = o2.Bye || o.Bye
@@ -391,7 +404,13 @@ func (w *world) probeOthers(a *sess.Act, sig, where string) bool {
 		if len(want) == 0 || c == nil || t == a.S {
 			continue
 		}
+		p0 := time.Now()
 		o := c.Cmd("NOOP", watch)
+		for try := 0; o.TimedOut && try < 4 && (sess.MaxStallSince(p0) > 500*time.Millisecond || sess.Runnable(w.srv.Pid())); try++ {
+			// this process was not scheduled, or the server is waiting for a CPU: the clock said nothing
+			p0 = time.Now()
+			o = c.Await(watch)
+		}
 		w.sh.mu.Lock()
 		w.sh.probes++
 		w.sh.mu.Unlock()
